@@ -1460,3 +1460,131 @@ Proof.
     + apply alookup_adel_same.
     + exact P.
 Qed.
+
+(* the same step for a request arriving from the other party: From/To exchanged, same dialog *)
+Corollary C04_sticky_step_reverse : forall e m m' x t0 d addr g ex dst cid f t f' t',
+  get_raw (s2b "Call-ID") m = Ok cid -> get_raw (s2b "Call-ID") m' = Ok cid ->
+  snd (s_get_from m) = Ok f -> snd (s_get_to m) = Ok t ->
+  snd (s_get_from m') = Ok f' -> snd (s_get_to m') = Ok t' ->
+  fromto_tag f' = fromto_tag t -> fromto_tag t' = fromto_tag f ->
+  dialog_addr (fromto_addr_spec f') = dialog_addr (fromto_addr_spec t) ->
+  dialog_addr (fromto_addr_spec t') = dialog_addr (fromto_addr_spec f) ->
+  dialog_of m = Ok d ->
+  fx_indialog_invite (e_fx e) = true -> ps_has_rr (x_p x) = true -> first_transport (e_lc e) = Some t0 ->
+  is_request m' = true ->
+  pin_at d (pin_val_backend addr g) ex (ps_pins (x_p x)) -> e_now e < ex ->
+  alookup addr (ps_backends (x_p x)) = Some g -> gen_ok g -> addr_dest addr = Some dst ->
+  let b := fwd_bytes e t0 (x_p x) m' in
+  let x' := fst (send_to_backend e m' x) in
+  x_outs x' = x_outs x ++ (if fits_datagram b then [(dst, b)] else []) /\
+  ps_rr (x_p x') = ps_rr (x_p x) /\ ps_backends (x_p x') = ps_backends (x_p x).
+Proof.
+  intros e m m' x t0 d addr g ex dst cid f t f' t' C C' F T F' T' E1 E2 A1 A2 D FX HR FT R P L A G AD.
+  assert (D' : dialog_of m' = Ok d) by (rewrite (dialog_of_symmetric m m' cid f t f' t'); assumption).
+  destruct (C04_sticky_step e m' x t0 d addr g ex dst FX HR FT R D' P L A G AD) as (H1 & H2 & H3 & _).
+  repeat split; assumption.
+Qed.
+
+(* ================================================================== Part 6: preservation *)
+(* membership half: unchanged by every message *)
+Definition mem_eq (p p' : pstate) : Prop :=
+  ps_backends p' = ps_backends p /\ ps_has_rr p' = ps_has_rr p /\ ps_gen p' = ps_gen p.
+Lemma mem_refl p : mem_eq p p. Proof. repeat split. Qed.
+Lemma mem_trans a b c : mem_eq a b -> mem_eq b c -> mem_eq a c.
+Proof. unfold mem_eq. intros (A1&A2&A3) (B1&B2&B3). repeat split; congruence. Qed.
+Lemma mem_of_lb p p' : lb_eq p p' -> mem_eq p p'.
+Proof. unfold lb_eq, mem_eq. intros (A1&A2&A3&A4&A5). repeat split; assumption. Qed.
+Lemma mem_of_static p p' : static_eq p p' -> mem_eq p p'.
+Proof. unfold static_eq, mem_eq. intros (A1&A2&A3&A4&A5). repeat split; assumption. Qed.
+
+Lemma stb_sel_mem e p m : mem_eq p (fst (stb_sel e p m)) /\ ps_rr (fst (stb_sel e p m)) = ps_rr p.
+Proof.
+  unfold stb_sel, fbd_pure.
+  destruct (method_of m) as [meth| |]; try (split; [apply mem_refl|reflexivity]).
+  destruct (_ && _)%bool; [split; [apply mem_refl|reflexivity]|].
+  destruct (dialog_of m) as [d| |]; try (split; [apply mem_refl|reflexivity]).
+  destruct (get_raw _ m); cbn [fst]; try (split; [apply mem_refl|reflexivity]);
+    destruct (notify_terminated meth m); split; try reflexivity; repeat split.
+Qed.
+Lemma stb_sel_pin e p m d v ex : is_request m = true ->
+  pin_at d v ex (ps_pins p) -> e_now e < ex ->
+  (dialog_of m = Ok d -> notify_terminated (req_method m) m = false) ->
+  pin_at d v ex (ps_pins (fst (stb_sel e p m))).
+Proof.
+  intros R P L NT. unfold stb_sel, fbd_pure. rewrite (method_of_request m R).
+  destruct (_ && _)%bool; [exact P|].
+  destruct (dialog_of m) as [d'| |]; try exact P.
+  pose proof (get_raw_not_panic (s2b "Subscription-State") m) as NP.
+  assert (P1 : pin_at d v ex (fst (pins_get (e_now e) d' (ps_pins p)))) by (apply pin_at_get; assumption).
+  assert (G : pin_at d v ex (ps_pins
+            (if notify_terminated (req_method m) m
+             then with_pins (with_pins p (fst (pins_get (e_now e) d' (ps_pins p))))
+                    (pins_remove d' (ps_pins (with_pins p (fst (pins_get (e_now e) d' (ps_pins p))))))
+             else with_pins p (fst (pins_get (e_now e) d' (ps_pins p)))))).
+  { destruct (notify_terminated (req_method m) m) eqn:EN; cbn [ps_pins with_pins]; [|exact P1].
+    apply pin_at_remove_other; [|exact P1]. intros E. subst d'. discriminate (NT eq_refl). }
+  destruct (get_raw (s2b "Subscription-State") m); try contradiction; exact G.
+Qed.
+(* sendToBackend for ANY request keeps the pin of d, provided it is not the terminating NOTIFY of
+   d and its transaction key is not d *)
+Lemma stb_pin_preserved e t0 p m d v ex : is_request m = true ->
+  pin_at d v ex (ps_pins p) -> e_now e < ex ->
+  (forall c, snd (s_get_cseq m) = Ok c -> trans_key e c <> d) ->
+  (dialog_of m = Ok d -> notify_terminated (req_method m) m = false) ->
+  pin_at d v ex (ps_pins (fst (stb_pure e t0 p m))) /\ mem_eq p (fst (stb_pure e t0 p m)).
+Proof.
+  intros R P L NK NT. unfold stb_pure.
+  pose proof (stb_sel_pin e p m d v ex R P L NT) as P1. pose proof (stb_sel_mem e p m) as [M1 _].
+  destruct (stb_sel e p m) as [p1 b]. cbn [fst] in P1, M1.
+  assert (B : forall bytes_, ps_pins (fst (fst (backend_send b bytes_ p1))) = ps_pins p1 /\
+                             mem_eq p1 (fst (fst (backend_send b bytes_ p1)))).
+  { intros bytes_. unfold backend_send. destruct b as [a g|].
+    - destruct (_ && _)%bool; split; try reflexivity; apply mem_refl.
+    - destruct (rr_dispatch (ps_rr p1)) as [r' o]. destruct o as [a|]; [destruct (fits_datagram bytes_)|];
+        split; try reflexivity; repeat split. }
+  specialize (B (fwd_bytes e t0 p m)).
+  destruct (backend_send b (fwd_bytes e t0 p m) p1) as [[p2 outs] ok]. cbn [fst] in B. destruct B as [B1 B2].
+  assert (M2 : mem_eq p p2) by (eapply mem_trans; eassumption).
+  destruct ok; cbn [fst]; [|rewrite B1; split; assumption].
+  destruct (snd (s_get_cseq m)) as [c| |] eqn:EC; try (rewrite B1; split; assumption).
+  cbn [ps_pins with_pins]. split.
+  - apply pin_at_add_other; [apply (NK c eq_refl)|lia|rewrite B1; exact P1].
+  - eapply mem_trans; [exact M2|]. repeat split.
+Qed.
+
+(* ---- a request through handleRawMessage: what reaches HandleMessage ---- *)
+Definition pm_tail (e : env) (peer : bytes) (peer_port : Z) (from : stransport) (m3 : message) (p1 : pstate)
+           (l1 : learned) (x : ctx) : res ctx :=
+  let m4 := fst (mtry (try_remove_top_route (e_cfg e) from) m3) in
+  let '(m5, p2) :=
+    if is_response m4 then
+      let '(m', r) := handle_dialog e peer peer_port p1 m4 in
+      (m', match r with Ok p' => p' | _ => p1 end)
+    else (m4, p1) in
+  let x1 := {| x_learned := l1; x_p := p2; x_conns := x_conns x; x_world := x_world x; x_outs := x_outs x |} in
+  Ok (fst (handle_message e from m5 x1)).
+(* [reaches e from m x m4 x1 x']: the request m of context x is handed to HandleMessage as m4 in
+   context x1: the headers other than Via keep their meaning, the load-balancing half is untouched *)
+Definition handed (e : env) (from : stransport) (m : message) (x : ctx) (x' : ctx) : Prop :=
+  exists m4 x1, keeps NQ m m4 /\ hvals (s2b "Route") (m_headers m) = [] -> hvals (s2b "Route") (m_headers m4) = [].
+Lemma pm_tail_spec e peer port from m3 p1 l1 x x' m :
+  keeps NP m m3 -> is_request m = true -> lb_eq (x_p x) p1 ->
+  pm_tail e peer port from m3 p1 l1 x = Ok x' ->
+  exists m4 x1, keeps NQ m m4 /\
+                (hvals (s2b "Route") (m_headers m) = [] -> hvals (s2b "Route") (m_headers m4) = []) /\
+                lb_eq (x_p x) (x_p x1) /\ x_outs x1 = x_outs x /\ x' = fst (handle_message e from m4 x1).
+Proof.
+  intros K R LB. unfold pm_tail.
+  pose proof (pres_try NQ _ (pres_try_remove_top_route NQ (e_cfg e) from NQ_noroute) m3) as K4.
+  set (m4 := fst (mtry (try_remove_top_route (e_cfg e) from) m3)) in *.
+  assert (K04 : keeps NQ m m4) by (eapply keeps_trans; [eapply keeps_incl; [apply NQ_NP|exact K]|exact K4]).
+  assert (R4 : is_response m4 = false) by (rewrite (k_is_response NQ m m4 K04); unfold is_response; rewrite R; reflexivity).
+  rewrite R4. intros H. injection H as <-.
+  eexists m4, _. split; [exact K04|]. split; [|split; [|split; [|reflexivity]]]; [|exact LB|reflexivity].
+  intros HR. destruct K as [_ K]. specialize (K (s2b "Route") ltac:(in_names)). unfold hrel in K. rewrite HR in K.
+  inversion K as [E|]. subst m4. unfold mtry, try_remove_top_route, mbind.
+  assert (G : s_get_route m3 = (m3, Err)).
+  { unfold s_get_route, typed_get. pose proof (get_header_hvals (s2b "Route") (m_headers m3)) as Eh.
+    rewrite <- E in Eh. destruct (get_header (s2b "Route") (m_headers m3)); [discriminate|reflexivity]. }
+  rewrite G. cbn [fst]. symmetry. exact E.
+Qed.
